@@ -234,7 +234,7 @@ def run(ctx):
     cur = {}
     for x in g:
         if x["variant"]:
-            k = "%s|%s|%s" % (x["fn"], x["variant"], x["cond"])
+            k = "%s|%s|%s" % (x["fn"], x["variant"], INV.litcmp(x["cond"]))
             cur.setdefault(k, []).append(x)
     by_fn_var = {}
     for k, xs in cur.items():
@@ -244,9 +244,10 @@ def run(ctx):
     for k, cnt in sorted(T["guards"].items()):
         fn, var, cond = k.split("|", 2)
         n += 1
-        have = len(cur.get(k, ()))
+        kk = "%s|%s|%s" % (fn, var, INV.litcmp(cond))
+        have = len(cur.get(kk, ()))
         if have >= cnt:
-            x = cur[k][0]
+            x = cur[kk][0]
             ctx.ok(R, k[:150], "%s:%d" % (x["file"], x["line"]), "", observed=have)
         else:
             now = by_fn_var.get((fn, var), [])
